@@ -10,10 +10,15 @@
       task (decision function `skipReason`, tied to the real `is_task_to_be_skipped` by the extracted table
       `Generated/C11TablesCheck.lean`), and a skipped test task never enters its body
       (`C01Run`: the body `enter` record only occurs in `run` mode).
-  (3) "An error carrying the original text is raised": checked on the real runs by the oracle for every
-      event index and exception class (the re-raise itself is 6 lines of `_run_suites`, not modelled).
+  (3) "An error carrying the original text is raised": the end of `run_tasks` / `_run_suites` is modelled
+      (`Model/RunOutcome.lean`: the keyboard interrupt is swallowed by `run_tasks`, the pending failure is
+      looked at after the `handle_events()` block) and tied to the code by the extracted table
+      `runOutcomeTable` (the real `run_suites` executed with / without a backend failure, with / without a
+      keyboard interrupt before or after it); `backend_error_reaches_the_caller` holds for every combination,
+      in particular when the run is ALSO interrupted.  The oracle checks the text on every real run.
 -/
 import LccModel.Model.RunAccept
+import LccModel.Model.RunOutcome
 import LccModel.Props.C01
 
 namespace LccModel.C11
@@ -43,6 +48,29 @@ theorem run_with_failing_backend_terminates {Tid : Type} [DecidableEq Tid] (g : 
   have hr : Reachable g n s := reachable_run g n ls (init g n) s Reachable.init h
   refine ⟨C01.executions_bounded g n ls s h, fun hnf => no_deadlock g wf n hn s hr hnf, fun hf t ht => ?_⟩
   exact (C01.task_handled_exactly_once g n s hr t).2 hf ht
+
+/-- **The backend's error reaches the caller, interrupted run or not**: whenever a backend failure is pending at
+    the end of the run (and no task raised by itself), the caller gets an error carrying the original text —
+    whether or not a keyboard interrupt was delivered, before or after the failure, and whatever the verdicts. -/
+theorem backend_error_reaches_the_caller (interrupted successful : Bool) (text : String) :
+    RunOutcome.outcome { interrupted := interrupted, taskException := false, pending := some text,
+                         successful := successful } = .raisedBackendError text := by
+  simp [RunOutcome.outcome, RunOutcome.runTasksEnd]
+
+/-- A keyboard interrupt never changes how the run ends for its caller: it is handled inside `run_tasks`
+    (the skipped tests make the run unsuccessful — that is in `successful` — but nothing else is raised). -/
+theorem interrupt_does_not_change_the_outcome (f : RunOutcome.Facts) (b : Bool) :
+    RunOutcome.outcome { f with interrupted := b } = RunOutcome.outcome f := by
+  simp [RunOutcome.outcome, RunOutcome.runTasksEnd]
+
+/-- Without a pending failure (and without internal task exception) the run returns its verdict. -/
+theorem no_failure_returns_verdict (interrupted successful : Bool) :
+    RunOutcome.outcome { interrupted := interrupted, taskException := false, pending := none,
+                         successful := successful } = .returned successful := by
+  simp [RunOutcome.outcome, RunOutcome.runTasksEnd]
+
+example : RunOutcome.outcome { interrupted := true, taskException := false, pending := some "disk full", successful := false }
+    = .raisedBackendError "disk full" := by decide
 
 /-! Non-vacuity: in the sample graph every task started after the failure is skipped and the run completes. -/
 example : ((run C01.sampleGraph 2 (init C01.sampleGraph 2)
